@@ -75,3 +75,29 @@ Example C07_example :
   let y := fst (forward 0%Z net (fun p _ v => (v + p)%Z) (fun _ _ => tt) (fun _ _ => tt) None mask [10; 20; 30; 40]%Z tt) in
   identity_idx mask = [0; 2] /\ transform_idx mask = [1; 3] /\ y = [10; 60; 30; 80]%Z.
 Proof. vm_compute. repeat split. Qed.
+
+(* the conditioner network and the unconditional transform are called with (identity split, context) in both directions (table
+   regenerated from nflows/transforms/coupling.py on every run) *)
+From Coq Require Import String.
+From NF Require Gen.Context.
+Theorem C07_conditioner_sees_identity_split_and_context :
+  forallb (fun r => snd r) Gen.Context.coupling_context_forwarding = true /\
+  forallb (fun r => match r with (_, call, _) =>
+     orb (String.prefix "self.transform_net(identity_split, context)"%string call)
+         (String.prefix "self.unconditional_transform"%string call) end)
+    Gen.Context.coupling_context_forwarding = true.
+Proof. split; reflexivity. Qed.
+Print Assumptions C07_conditioner_sees_identity_split_and_context.
+
+(* whether the identity features get a transform of their own is decided by the caller alone: in every subclass constructor the
+   unconditional transform is built under `if apply_unconditional_transform:` and is None otherwise; the base class stores None
+   when given None (table regenerated from nflows/transforms/coupling.py on every run) *)
+Theorem C07_unconditional_transform_only_when_requested :
+  forallb (fun r => match r with (cls, test, other) =>
+     if String.eqb cls "CouplingTransform"
+     then String.eqb test "unconditional_transform is None"
+     else andb (String.eqb test "apply_unconditional_transform") (String.eqb other "None") end)
+    Gen.Context.coupling_unconditional_gates = true
+  /\ 5 <= List.length Gen.Context.coupling_unconditional_gates.
+Proof. split; [reflexivity | cbv; repeat constructor]. Qed.
+Print Assumptions C07_unconditional_transform_only_when_requested.
